@@ -49,14 +49,11 @@ def rfc_map(it, t):
     w0 = (s * v).scale(2); w1 = N * SQRT_AD_MINUS_ONE; w2 = ONE - s * s; w3 = ONE + s * s
     return [w0 * w3, w2 * w1, w1 * w3, w0 * w2]
 
-def harnesses(rep, cfg, modpath):
-    T = []
-    def H(name, fn, body, **kw): T.append(lambda: run_paths(rep, "%s/%s" % (cfg, name), cfg, modpath, fn, body, **kw))
-
+def mk_ris_decode(entry):
     def b_decode(it):
         s = ByteString(it, "s"); inp = it.new_region("in", 32); s.store(it, inp)
         out = it.new_region("out", 4 * it.fesize)
-        ok = it.P(it.call("vp_ris_decompress", [inp, out])).cval() & 1
+        ok = it.P(it.call(entry, [inp, out])).cval() & 1
         sv = s.low
         vcs = []
         try:
@@ -85,7 +82,13 @@ def harnesses(rep, cfg, modpath):
         except Missing as e:
             vcs.append(("procedure follows RFC 9496 Decode: " + str(e), False))
         return vcs
-    H("ristretto_decode vs RFC 9496 4.3.1", "vp_ris_decompress", b_decode)
+    return b_decode
+
+def harnesses(rep, cfg, modpath):
+    T = []
+    def H(name, fn, body, **kw): T.append(lambda: run_paths(rep, "%s/%s" % (cfg, name), cfg, modpath, fn, body, **kw))
+
+    H("ristretto_decode vs RFC 9496 4.3.1", "vp_ris_decompress", mk_ris_decode("vp_ris_decompress"))
 
     def b_encode(it):
         x0, y0, z0, t0 = V("x0"), V("y0"), V("z0"), V("t0")
